@@ -25,6 +25,7 @@ STRAIGHT = ["assume"] * 6 + ["assign"] * 4 + ["forget"] * 2 + ["bounds"] * 2 + [
 # streams contain no meet; meets on octagons live in the dedicated stream "oct-meet", whose
 # histories are small enough for the exhaustive oracle to decide every answer.
 NOMEET = ["assume"] * 9 + ["join"] * 4 + ["forget"] * 2 + ["copy"] * 2 + ["normalize", "q_leq", "q_leq", "top", "bounds", "bounds", "assign", "assign"]
+CHAINS = ["assume1"] * 12 + ["bounds"] * 2 + ["forget", "copy", "join"]
 OCTMEET = ["assume"] * 5 + ["meet"] * 3 + ["join", "forget", "copy", "q_leq", "bounds"]
 
 
@@ -37,6 +38,9 @@ def streams(tier):
         ("zones", "zones", "zone", N(500, 20000), dict(params=True), False),
         ("zones-safe", "zones-safe", "zone", N(150, 5000), dict(params=True), False),
         ("sparse", "sparse", "zone", N(300, 10000), dict(params=True), False),
+        # long chains of single constraints over 5-7 variables (incremental closure around a new edge)
+        ("sparse-chains", "sparse", "zone", N(200, 6000), dict(params=True, minvars=5, maxvars=7, minops=8, maxops=18, maxq=3, ops=CHAINS, boundary=False), False),
+        ("zones-chains", "zones", "zone", N(150, 5000), dict(params=True, minvars=5, maxvars=7, minops=8, maxops=18, maxq=3, ops=CHAINS, boundary=False), False),
         ("oct", "oct", "oct", N(500, 20000), dict(params=True, maxvars=4, ops=NOMEET), False),
         ("oct-zone-lang", "oct", "zone", N(150, 5000), dict(params=True, maxvars=4, ops=NOMEET), False),
         ("oct-meet", "oct", "oct", N(120, 3000), dict(params=True, ks=small, maxvars=3, minops=3, maxops=7, maxq=2, ops=OCTMEET, boundary=False, corpus_must="meet"), True),
